@@ -211,3 +211,7 @@ pub use exports::*;
 #[cfg(not(feature = "__internal-api"))]
 pub(crate) use exports::*;
 use serde::{Deserialize, Serialize};
+
+#[cfg(all(test, pendulum_project_ntpd_rs_verif))]
+#[path = "/verif/harness/ntp_proto/root.rs"]
+pub(crate) mod verif_hook;
